@@ -140,11 +140,20 @@ class NamesTable:
                 out.discard(("", pname + uname))
         return out
 
+    def explicit(self, reading):
+        """The unit defined under the spelling prefix name + unit name of this reading, if any (bundled:
+        'milliarcsecond' next to milli- and arcsecond): a defined spelling denotes that unit."""
+        p, u = reading
+        return self.unit_spellings().get(p + u) if p else None
+
     def canonical(self, reading):
-        return reading[0] + reading[1]
+        return self.explicit(reading) or reading[0] + reading[1]
 
     def symbol(self, reading):
         p, u = reading
+        ex = self.explicit(reading)
+        if ex:
+            return self.units[ex]["symbol"] or ex
         ps = self.prefixes[p]["symbol"] or p if p else ""
         return ps + (self.units[u]["symbol"] or u)
 
